@@ -92,8 +92,7 @@ def strategy_contract(chk, prefix, which):
     chk.function("config.JitterStrategy.apply_jitter", "verified (inlined)")
     made = eng.run(P.func(q), [cfg], st=st)
     if not made or any(m[0] != "val" or not isinstance(m[1], FuncRef) for m in made):
-        chk.fault(f"{q}: expected closures")
-        return
+        raise Unsupported(f"{q} no longer returns a plain closure on every path: the strategy contract is stated over the closure it used to return")
     for _, strat, st1 in made:
         # the strategy decides every failure of the step, in this and in later invocations: it must not carry consumable state.  A generator object
         # captured by the closure is consumed by the first decision(s) and empty afterwards.
